@@ -39,6 +39,24 @@ PROPS = {
     },
     "C09": hs("Only offered transport options are negotiated and both ends apply them", "for C09 the monitor requires offers to be exactly configured-and-supported, confirmations to repeat a pair chosen from the offer, SetEncryption right after the confirmation, and every later envelope and callback under the confirmed encryption.", " The client half and the agreement of both ends are covered by Model C and the composition (see C08)."),
     "C10": hs("A server that does not offer cleartext never authenticates over cleartext", "for C10 the monitor requires, whenever 'none' is not configured and a configured option is supported, that every authentication request, Authenticate/Register call and established envelope happens under a configured encryption."),
+    "C12": {
+        "title": "The TCP transport preserves the envelope stream under fragmentation and stalls",
+        "design_ref": "DESIGN.md section 5, C12; section 4 Model E",
+        "technique": "Coq proof by induction over arbitrary write oracles and read plans (Model E) + differential correspondence over an injected fault-scripting connection",
+        "level_text": "Machine-checked proof (Coq 8.16.1, no axioms): writer - for every byte string and every behaviour of the connection's Write calls (any number of bytes taken, then success / temporary timeout / fatal error, context expiry) a Send puts a prefix of the encoding on the wire and all of it when it reports success, and consecutive sends concatenate; reader - for every stream, limit and read plan (any chunking, coalescing, stalls, cuts, EOF) each Receive returns exactly the next frame or a sticky error, never another frame. The duplication bug of the tree as found is a theorem about the un-repaired loop and a regression case. Tied to the code on every run: the real tcpTransport runs over an injected connection that scripts every short-write length with timeouts (repeated), fatal errors, expired contexts, every split point of short streams, stalls and cuts; wire bytes, Send results, Receive results and per-Receive byte counts are compared with the model inside Coq.",
+        "level_note": "Trusted: Coq kernel; Model E; harness (memconn fault connection) and printers. Assumed: frames are self-delimiting JSON texts and json.Decoder's buffer is a contiguous window of the stream (encoding/json, trusted); a Read that returns data returns no error (true of net.TCPConn and tls.Conn). TLS record framing is not modelled.",
+        "trusted": ["Model E (coq/Tcp/Writer.v, Reader.v) re-states ctxConn.Write/Read, the io.LimitedReader budget, its re-arming in tcpTransport.Receive, json.Decoder's sticky error and the eof flag"],
+        "assumptions": ["no Send is attempted after a failed Send on the same transport"],
+    },
+    "C16": {
+        "title": "Inbound envelope size is bounded by the read limit",
+        "design_ref": "DESIGN.md section 5, C16; section 4 Model E",
+        "technique": "Coq proof (invariants over read plans: per-Receive budget, read-ahead <= limit, progress for frames within the limit) + differential correspondence with exact per-Receive byte counts",
+        "level_text": "Machine-checked proof (Coq 8.16.1, no axioms) for every limit, stream of frame sizes and read plan: (a) no Receive takes more than the limit from the connection; (b) the read-ahead left after a successful Receive is at most one limit, hence a frame above twice the limit is never returned (the Receive fails, stickily); (c) a frame within the limit is never rejected, whatever preceded it and however the stream is fragmented or coalesced. Tied to the code on every run: limits 64/100/1000(/4096) x frame sizes around L, 2L, 2L+1, 2L+2, 10L at every position of a stream of small frames x coalescing patterns, through the real tcpTransport.Receive over an injected connection that counts the bytes every Receive takes; results and counts are compared with the model (fed with the logged read sizes as its plan) inside Coq.",
+        "level_note": "Trusted: Coq kernel; Model E; harness and printers. The model receives the logged sizes of the connection's Read calls as its plan and re-derives budget, results and Connected() from them. Noted outside the statement: after a Receive that fails with a non-sticky decoding error the budget is not re-armed (unobservable through channels, which stop after any error).",
+        "trusted": ["Model E (coq/Tcp/Reader.v)"],
+        "assumptions": ["frames are separated by one newline, as json.Encoder writes them"],
+    },
     "C14": hs("Every connection that fails to establish is released", "for C14 the monitor's final condition requires that whatever was failed, aborted (non-session input, undecodable input, EOF, callback error) or is no longer served is closed, and that Established/Finished fire only for established sessions."),
     "C01": {
         "title": "Envelope JSON round-trip preserves kind and content",
